@@ -130,8 +130,28 @@ func cloneAd(ad *schema.Advertisement) *schema.Advertisement {
 }
 
 // sign produces the advertisement signature by signer and entry i's signature by key epk[i].
-func sign(ad *schema.Advertisement, tc *tcase, kt string) error {
-	sk := ids.KeyT(tc.Signer, kt)
+// nested: every signature of the advertisement under construction is made after another advertisement (other contents, other
+// identities, with an extended provider) has been signed completely -- an advertisement is a value, signing one does not touch
+// another that is being signed.  Done for a quarter of the cases.
+
+func otherAd(kt string) {
+	o := &schema.Advertisement{Provider: ids.PeerT("X", kt).String(), Addresses: []string{"/ip4/7.7.7.7/tcp/7777"}, Entries: schema.NoEntries,
+		ContextID: []byte("ctx-of-another-advertisement"), Metadata: []byte("md-of-another-advertisement"), PreviousID: mkLink("A"),
+		ExtendedProvider: &schema.ExtendedProvider{Providers: []schema.Provider{{ID: ids.PeerT("X", kt).String(), Addresses: []string{"/ip4/7.7.7.8/tcp/7777"}, Metadata: []byte("md-x")}}}}
+	k := ids.KeyT("X", kt)
+	o.SignWithExtendedProviders(k, func(string) (crypto.PrivKey, error) { return k, nil })
+}
+
+func keyFor(name, kt string, nested bool) crypto.PrivKey {
+	k := ids.KeyT(name, kt)
+	if nested {
+		return ids.Nest(k, func() { otherAd(kt) })
+	}
+	return k
+}
+
+func sign(ad *schema.Advertisement, tc *tcase, kt string, nested bool) error {
+	sk := keyFor(tc.Signer, kt, nested)
 	if !tc.Shape.HasExt {
 		return ad.Sign(sk)
 	}
@@ -149,7 +169,7 @@ func sign(ad *schema.Advertisement, tc *tcase, kt string) error {
 		return err
 	}
 	for i := range tc.Shape.Eps {
-		k := ids.KeyT(tc.Epk[i], kt)
+		k := keyFor(tc.Epk[i], kt, nested)
 		c := cloneAd(ad)
 		if err := ignoreMissingMain(c.SignWithExtendedProviders(k, func(string) (crypto.PrivKey, error) { return k, nil })); err != nil {
 			return err
@@ -285,14 +305,14 @@ type observed struct {
 	Panic string `json:"panic,omitempty"`
 }
 
-func runCase(tc *tcase, kt, codec string) (ob observed, infra error) {
+func runCase(tc *tcase, kt, codec string, nested bool) (ob observed, infra error) {
 	defer func() {
 		if e := recover(); e != nil {
 			ob.Panic = fmt.Sprint(e)
 		}
 	}()
 	ad := build(&tc.Shape, kt)
-	if err := sign(ad, tc, kt); err != nil {
+	if err := sign(ad, tc, kt, nested); err != nil {
 		return ob, fmt.Errorf("sign: %w", err)
 	}
 	if err := mutate(ad, tc, kt); err != nil {
@@ -323,7 +343,7 @@ func runCase(tc *tcase, kt, codec string) (ob observed, infra error) {
 // honestly signed advertisement is altered once; verification must fail each time.
 func flipSweep(tc *tcase, kt string, r *rep.Report) int {
 	ad := build(&tc.Shape, kt)
-	if err := sign(ad, tc, kt); err != nil {
+	if err := sign(ad, tc, kt, false); err != nil {
 		return 0
 	}
 	n := 0
@@ -423,7 +443,8 @@ func Run(args []string) *rep.Report {
 				}
 				for _, kt := range kts {
 					codec := []string{"", "json", "cbor"}[(j.idx/3)%3]
-					ob, err := runCase(tc, kt, codec)
+					nested := (j.idx/5)%4 == 0
+					ob, err := runCase(tc, kt, codec, nested)
 					mu.Lock()
 					execs++
 					mu.Unlock()
@@ -446,7 +467,7 @@ func Run(args []string) *rep.Report {
 						key = "wrong-signer-returned"
 					}
 					if key != "" {
-						r.Diverge(rep.Divergence{Key: key, Case: tc, Expected: tc.Out, Observed: ob, Detail: "key type " + kt + " codec " + codec})
+						r.Diverge(rep.Divergence{Key: key, Case: tc, Expected: tc.Out, Observed: ob, Detail: fmt.Sprintf("key type %s codec %s nested signing %v", kt, codec, nested)})
 					}
 				}
 				if tc.Out.Ok && *sweepEvery > 0 && j.idx%*sweepEvery == 0 {
